@@ -12,7 +12,11 @@ static int nsplit;
 void vp_on_split(u64 kind, u64 left, u64 right, u64 divisible) { nsplit++; VP_ASSERT(divisible, "range_vector split a range that is not divisible"); }
 int main(void) {
   u64 b[8], e[8], d[8], nb[8], ne[8], nd_[8], hts[3], o[8];
+#ifdef HEAD   /* ring position concrete per query (a symbolic index into the pool multiplies the formula), everything else symbolic */
+  unsigned h = HEAD, s = SIZE;
+#else
   unsigned h = (unsigned)vp_nd_range(0, 7), s = (unsigned)vp_nd_range(1, 8);
+#endif
   unsigned t = (h + 8 - (s - 1)) % 8;
   u64 g = vp_nd(); __CPROVER_assume(g >= 1);
   unsigned md = (unsigned)vp_nd_range(0, 255);
